@@ -135,6 +135,14 @@ def wrappers(theme, e, rng=None, full=True):
             for ax in [None] + list(range(-len(shape), len(shape))):
                 for kd in (False, True):
                     yield outreduce(op, e, ax, kd)
+        # TUPLE axes with members of either sign (each member refers to the output shape only)
+        r_ = len(shape)
+        tups = [(0,), (-1,)] if r_ == 1 else [(0, 1), (-2, -1), (0, -1), (-2, 1), (-1,), (1, 0)] if r_ == 2 else [(0, -1), (-3, -2), (1, -1), (-1, 0, 1)]
+        for op in T["outred"]:
+            if op in ("argmax", "argmin"):
+                continue
+            for ax in tups:
+                yield outreduce(op, e, ax, ax[0] < 0)
         yield getitem(e, num(shape[0] - 1, shape[0]))
         yield getitem(e, var("gi", ("bint", shape[0])))
         yield getitem(e, _leaf_idx("ig%d" % shape[0], ("k",), shape[0]))
